@@ -780,6 +780,77 @@ def run(ctx):
                                        "(an interrupt during the mutation step, say), after the temperature, the counter and the history entries of that iteration were written but before "
                                        "the population was resampled and mutated -- the last checkpoint in the file then describes no state the run was ever in, and resuming from it skips a step",
                                        disc="enclosing-handler")
+    # ---- a checkpoint written after the loop records the loop's temperature variable; a population that was produced after the loop at a literal
+    #      temperature (the final enlargement: resample(1.0, n) + mutate(.., 1.0)) may only reach it when the loop can only be left with the variable
+    #      equal to that literal.  With an iteration cap the loop is also left at beta < 1: the payload then pairs a population distributed at 1.0 with
+    #      the temperature of the last step, and a resume with a larger cap computes its next increment on a population that is not the recorded one.
+    if _mc is not None:
+        bcs = [c_ for c_ in ast.walk(_mc.node) if isinstance(c_, ast.Call) and isinstance(c_.func, ast.Attribute) and c_.func.attr == "build_checkpoint_state"]
+        pop_var = beta_var = None
+        if bcs:
+            a_ = bcs[0].args
+            kw_ = {k_.arg: k_.value for k_ in bcs[0].keywords}
+            pv, bv = (a_[0] if a_ else kw_.get("samples")), (a_[2] if len(a_) > 2 else kw_.get("beta"))
+            pop_var = pv.id if isinstance(pv, ast.Name) else None
+            beta_var = bv.id if isinstance(bv, ast.Name) else None
+        finals = [c_ for c_ in walk_no_nested(sample.node) if isinstance(c_, ast.Call) and isinstance(c_.func, ast.Name) and c_.func.id == _mc.name
+                  and c_.lineno > loop_node.end_lineno]
+        if pop_var is None or beta_var is None or not finals:
+            ctx.unknown("C11.cut", sample.ident, loc_of(sample, loop_node), "the payload's population / temperature variables or the final checkpoint call were not identified", disc="pairing")
+        else:
+            def _temp_of(call):
+                """literal temperature of a mutate / resample call, else None"""
+                if not (isinstance(call, ast.Call) and isinstance(call.func, ast.Attribute) and call.func.attr in ("mutate", "resample")):
+                    return None
+                idx = 1 if call.func.attr == "mutate" else 0
+                kw = {k_.arg: k_.value for k_ in call.keywords}
+                t_ = call.args[idx] if len(call.args) > idx else kw.get("beta")
+                return t_ if isinstance(t_, ast.Constant) and isinstance(t_.value, (int, float)) else None
+
+            late = []
+            for n_ in walk_no_nested(sample.node):
+                if isinstance(n_, ast.Assign) and loop_node.end_lineno < n_.lineno < finals[0].lineno and any(isinstance(t_, ast.Name) and t_.id == pop_var for t_ in n_.targets):
+                    lit = _temp_of(n_.value)
+                    if lit is not None:
+                        late.append((n_, lit.value))
+            # exits of the loop: `while <test>` or `if <test>: break`
+            exits = []
+            if not (isinstance(loop_node.test, ast.Constant) and loop_node.test.value is True):
+                exits.append(ast.UnaryOp(ast.Not(), loop_node.test))
+            for n_ in ast.walk(loop_node):
+                if isinstance(n_, ast.If) and any(isinstance(b_, ast.Break) for b_ in n_.body):
+                    exits.append(n_.test)
+
+            def _implies_eq(test, lit):
+                """does *test* being true imply beta_var == lit?"""
+                if isinstance(test, ast.Compare) and len(test.ops) == 1 and isinstance(test.ops[0], ast.Eq):
+                    l_, r_ = test.left, test.comparators[0]
+                    for a2, b2 in ((l_, r_), (r_, l_)):
+                        if isinstance(a2, ast.Name) and a2.id == beta_var and isinstance(b2, ast.Constant) and b2.value == lit:
+                            return True
+                if isinstance(test, ast.BoolOp) and isinstance(test.op, ast.And):
+                    return any(_implies_eq(v_, lit) for v_ in test.values)
+                if isinstance(test, ast.BoolOp) and isinstance(test.op, ast.Or):
+                    return all(_implies_eq(v_, lit) for v_ in test.values)
+                return False
+
+            def _guards(node):
+                """tests of the `if` statements (outside the loop) that enclose *node* on their true branch"""
+                out = []
+                for i_ in walk_no_nested(sample.node):
+                    if isinstance(i_, ast.If) and i_.lineno > loop_node.end_lineno and any(node is x_ for b_ in i_.body for x_ in ast.walk(b_)):
+                        out.append(i_.test)
+                return out
+            ctx.count("post_loop_populations_at_a_literal_temperature", len(late))
+            for n_, lit in late:
+                ok_ = all(_implies_eq(e_, lit) for e_ in exits) and bool(exits) or any(_implies_eq(t_, lit) for t_ in _guards(n_))
+                loose = [ast.unparse(e_)[:70] for e_ in exits if not _implies_eq(e_, lit)]
+                ctx.decide(ok_, "C11.cut", sample.ident, loc_of(sample, n_),
+                           f"the population produced after the loop at temperature {lit} reaches the final checkpoint only when {beta_var} == {lit}",
+                           f"`{ast.unparse(n_)[:70]}` (line {n_.lineno}) replaces the population after the loop by one produced at temperature {lit}, and the forced checkpoint at line "
+                           f"{finals[0].lineno} stores it next to `{beta_var}`; the loop is also left through `{loose[0] if loose else '?'}` with {beta_var} < {lit}, so the payload pairs a "
+                           f"population distributed at {lit} with the temperature of the last step: resumed with a larger cap, the next evidence increment is computed on a population "
+                           "that is not the recorded one (and is not distributed at the recorded temperature)", disc="pairing")
     if not cps:
         ctx.unknown("C11.cut", sample.ident, loc_of(sample, loop_node), "no checkpoint call found in the loop body")
     for i, cp in enumerate(cps):
